@@ -113,7 +113,7 @@ def run_agg(desc, ctx):
                 ctx.case("%s|nd%d|axis%s|%s" % (name, a.ndim, axis, kind), a.shape[axis] >= 2 if axis is not None else a.size >= 2,
                          {"aggregator": name, "shape": list(a.shape), "axis": axis})
             # quantile laws
-            levels = [0.0, 0.1, 0.25, 0.5, 0.75, 0.9, 1.0]
+            levels = [0.0, 0.005, 0.025, 0.1, 0.25, 0.333, 0.5, 0.75, 0.9, 0.975, 0.995, 1.0]
             prev = None
             for q in levels:
                 res = np.asarray(verif.aggregator.get(gen.fnum(q))(arr.copy(), axis=axis), float)
@@ -130,6 +130,9 @@ def run_agg(desc, ctx):
                         bad = "level 1 is not the maximum %r" % hi
                     if q == 0.5 and not vutil.num_equal(got, refmetrics.median(vals), 1e-9, 1e-9):
                         bad = "level 0.5 is not the median %r" % refmetrics.median(vals)
+                    wq = refmetrics.quantile_linear(vals, q)
+                    if bad is None and not vutil.num_equal(got, wq, 1e-9, 1e-9):
+                        bad = "the level-%s sample quantile (linear interpolation) is %r" % (q, wq)
                     if bad:
                         ctx.violation("quantile-law", "quantile %s of %s = %r: %s" % (q, vals, got, bad),
                                       {"name": gen.fnum(q), "array": arr.tolist(), "axis": axis})
